@@ -45,6 +45,7 @@ ASSUMPTIONS = [
 SPACING = 50
 FIRST = 120
 LEFT_ZONE = (8, 92)
+STRETCH = 104000
 PALETTE = [10, 20, 30, 40]
 
 
@@ -489,6 +490,11 @@ def scenarios(ctx):
     nrand = 120 if q else 1500
     for i in range(nrand):
         scs.append(_rand_scenario(rng, 2 if i % 4 else rng.choice([3, 4])))
+        sc = scs[-1]
+        if sc["opts"].get("regions") is None and not sc["opts"].get("linked") and rng.random() < 0.35:
+            for ch in sc["chroms"]:
+                if len(ch["sites"]) >= 2:
+                    ch["stretch"] = rng.randint(1, len(ch["sites"]) - 1)
     for i in range(60 if q else 600):
         scs.append(_bx_scenario(rng))
     for i in range(80 if q else 800):
@@ -513,11 +519,15 @@ def _layout(sc, rng):
     chroms = []
     for ci, ch in enumerate(sc["chroms"]):
         K = len(ch["sites"])
-        length = FIRST + SPACING * max(K, 1) + 220
+        # "stretch": more than 100 kb (haplotag's distance threshold for the alignments of one name) between site g and g+1,
+        # so that the mates of a pair (or the molecules of a barcode) lie far apart on the chromosome
+        g_ = ch.get("stretch")
+        far = STRETCH if g_ is not None else 0
+        length = FIRST + SPACING * max(K, 1) + 220 + far
         ref = W.random_reference(rng, length)
         vs = []
         for j, s in enumerate(ch["sites"]):
-            base = FIRST + SPACING * j
+            base = FIRST + SPACING * j + (far if g_ is not None and j >= g_ else 0)
             for off in range(0, 12):
                 p = base + off
                 if s["kind"] == "del" and not W.deletion_unshiftable(ref, p, s["len"]):
@@ -527,7 +537,7 @@ def _layout(sc, rng):
             else:
                 # on a homopolymer-free reference a 1-bp deletion is always unshiftable
                 vs.append(W.make_variant(rng, ref, base, "del", 1))
-        right0 = FIRST + SPACING * max(K, 1) + 25
+        right0 = FIRST + SPACING * max(K, 1) + 25 + far
         chroms.append({"name": f"c{ci + 1}", "len": length, "ref": ref, "vars": vs, "right": (right0, length - 8)})
     return chroms
 
